@@ -78,9 +78,7 @@ def assemble(db, root, contracts, replace=(), harness='', includes=('avm_base.h'
     if model_text is not None:
         mt, missing = model_text([e for e in externs if e.startswith('_') or e.startswith('model_')])
         out.append(mt)
-    out.append(struct_text(db['structs']))
-    for nm in db['structs']:
-        out.append('%s nondet_%s(void);' % (nm, nm))
+    out.append('/*@STRUCTS@*/')
     for inc in spec_includes:
         out.append('#include "%s"' % inc)
     dyn = []
@@ -106,4 +104,23 @@ def assemble(db, root, contracts, replace=(), harness='', includes=('avm_base.h'
         out.append(fill(f['code'], contracts.get(cn) if cn == root else None))
     out.append('void avel_static_init(void) {\n' + ''.join('  %s\n' % d for d in dyn) + '}\n')
     out.append(harness)
-    return '\n'.join(out) + '\n', externs, missing
+    text = '\n'.join(out) + '\n'
+    # only the records this TU mentions (transitively), so that identical code gives identical text in every configuration
+    S = db['structs']
+    used = set()
+
+    def need(nm):
+        if nm in used or nm not in S:
+            return
+        used.add(nm)
+        for f, t in S[nm]:
+            need(re.sub(r'(\[\d+\])+$', '', t).rstrip('*').strip())
+    for tok in set(re.findall(r'[A-Za-z_]\w*', text)):
+        if tok in S:
+            need(tok)
+        elif tok.startswith('nondet_') and tok[7:] in S:
+            need(tok[7:])
+    sub = {k: S[k] for k in used}
+    st = struct_text(sub) + ''.join('%s nondet_%s(void);\n' % (nm, nm) for nm in sorted(sub))
+    text = text.replace('/*@STRUCTS@*/', st)
+    return text, externs, missing
